@@ -293,9 +293,8 @@ func (propC10) Check(c *Case) (*Violation, *RunInfo) {
 				}
 			case fired:
 				ri.count("A2_save_under_fs_fault", 1)
-				if a.OK {
-					fail("C10-A2-error-swallowed", "a filesystem fault fired (%v) but Save returned nil", a.FSLog)
-				}
+				// a nil return under a fault is only acceptable if the save genuinely succeeded
+				// (an implementation may recover through a fallback); judged by the content below
 			default:
 				ri.count("A3_save_success", 1)
 				if !a.OK {
@@ -304,7 +303,11 @@ func (propC10) Check(c *Case) (*Violation, *RunInfo) {
 			}
 			if viol == nil && a.OK {
 				if !a.SavedOK || !bytes.Equal(a.Saved, ref.Out) {
-					fail("C10-A3-saved-content", "Save returned nil but the target does not contain exactly the rendered output (regular file=%v, %d bytes vs %d expected; %s)", a.SavedOK, len(a.Saved), len(ref.Out), firstDiff(ref.Out, a.Saved))
+					rule, lead := "C10-A3-saved-content", "Save returned nil"
+					if fired {
+						rule, lead = "C10-A2-error-swallowed", fmt.Sprintf("a filesystem fault fired (%v) and Save returned nil", a.FSLog)
+					}
+					fail(rule, "%s but the target does not contain exactly the rendered output (regular file=%v, %d bytes vs %d expected; %s)", lead, a.SavedOK, len(a.Saved), len(ref.Out), firstDiff(ref.Out, a.Saved))
 				}
 			}
 			continue
@@ -319,8 +322,8 @@ func (propC10) Check(c *Case) (*Violation, *RunInfo) {
 			}
 		case a.Fired:
 			ri.count("A2_render_under_writer_fault", 1)
-			if a.OK {
-				fail("C10-A2-error-swallowed", "the writer failed at Write call %d but the call returned nil", op.W.FailAt)
+			if a.OK && !bytes.Equal(a.Out, ref.Out) {
+				fail("C10-A2-error-swallowed", "the writer failed at Write call %d, the call returned nil and the writer did not receive the rendered output", op.W.FailAt)
 			}
 		default:
 			ri.count("A3_render_success", 1)
